@@ -22,10 +22,67 @@ Proof. intros. unfold comp_now, comp_needed, comp_need_index, role_z, zn. cbn. a
 Lemma comp_now_push : forall npop npush q l n p, l <= p < l + n -> npop + q <= p -> comp_now true npop npush q l n = true.
 Proof. intros. unfold comp_now, comp_needed, comp_need_index, role_z, zn. cbn. apply Z.leb_le. lia. Qed.
 
-Lemma round_end_gt : forall q i, 1 <= q -> i < round_end q i.
+(* ---- the round split of pop_n / push_n / try_pop_n for a capacity 2^k ---- *)
+Definition pow2 (q : nat) : Prop := exists k, q = Nat.pow 2 k /\ k < 64.
+Lemma round_z : forall k i, (0 <= k)%Z ->
+  Z.land (i + (2 ^ k - 1) + 1) (Z.lnot (2 ^ k - 1)) = ((i / 2 ^ k + 1) * 2 ^ k)%Z.
 Proof.
-  intros q i Hq. unfold round_end. pose proof (Nat.mul_succ_div_gt i q ltac:(lia)). rewrite Nat.add_1_r. lia.
+  intros k i Hk. assert (M : (2 ^ k - 1 = Z.ones k)%Z) by (rewrite Z.ones_equiv; lia).
+  rewrite M. rewrite <- Z.ldiff_land. rewrite Z.ldiff_ones_r by lia.
+  rewrite Z.shiftl_mul_pow2 by lia. rewrite Z.shiftr_div_pow2 by lia. rewrite <- M.
+  assert (P : (0 < 2 ^ k)%Z) by (apply Z.pow_pos_nonneg; lia).
+  replace (i + (2 ^ k - 1) + 1)%Z with (i + 1 * 2 ^ k)%Z by lia. rewrite Z.div_add by lia. reflexivity.
 Qed.
+Lemma round_gt : forall q i, pow2 q ->
+  exists rb, Z.land (Z.of_nat i + (Z.of_nat q - 1) + 1) (Z.lnot (Z.of_nat q - 1)) = Z.of_nat rb /\ i < rb.
+Proof.
+  intros q i (k & -> & _). rewrite Nat2Z.inj_pow. change (Z.of_nat 2) with 2%Z. rewrite round_z by lia.
+  assert (P : (0 < 2 ^ Z.of_nat k)%Z) by (apply Z.pow_pos_nonneg; lia).
+  pose proof (Z.mul_succ_div_gt (Z.of_nat i) _ P). pose proof (Z.div_pos (Z.of_nat i) _ ltac:(lia) P).
+  exists (Z.to_nat ((Z.of_nat i / 2 ^ Z.of_nat k + 1) * 2 ^ Z.of_nat k)). split; [|lia].
+  rewrite Z2Nat.id; auto. apply Z.mul_nonneg_nonneg; lia.
+Qed.
+Lemma pow2_pos : forall q, pow2 q -> 1 <= q /\ (Z.of_nat q < 2 ^ 64)%Z.
+Proof.
+  intros q (k & -> & Hk). split.
+  - pose proof (Nat.pow_nonzero 2 k). lia.
+  - rewrite Nat2Z.inj_pow. change (Z.of_nat 2) with 2%Z. apply Z.pow_lt_mono_r; lia.
+Qed.
+Lemma round_end_gt : forall q i, pow2 q -> i < round_end q i.
+Proof. intros q i H. unfold round_end, trypopn_round. destruct (round_gt q i H) as (rb & E & L). rewrite E. lia. Qed.
+
+(* the plan of pop_n / push_n: a first segment, and a second one covering exactly the rest when the claim wraps *)
+Lemma seg_plan_spec : forall r q idx need, pow2 q -> 1 <= need ->
+  idx < fst (seg_plan r q idx need) <= idx + need /\
+  ((snd (seg_plan r q idx need) = None /\ fst (seg_plan r q idx need) = idx + need) \/
+   (snd (seg_plan r q idx need) = Some (fst (seg_plan r q idx need), idx + need - fst (seg_plan r q idx need)) /\
+    fst (seg_plan r q idx need) < idx + need)).
+Proof.
+  intros r q idx need H N. destruct (round_gt q idx H) as (rb & E & L). unfold seg_plan.
+  destruct r; unfold pushn_round, pushn_fits, pushn_whole, pushn_first, pushn_start2, pushn_second,
+                     popn_round, popn_fits, popn_whole, popn_first, popn_start2, popn_second; rewrite E;
+    destruct (Z.leb_spec (Z.of_nat idx + Z.of_nat need) (Z.of_nat rb)); cbn [fst snd];
+    (split; [lia|]); [left|right|left|right]; split; try lia; f_equal; f_equal; lia.
+Qed.
+
+(* the page cursor of the allocator callbacks *)
+Lemma src_index_spec : forall th j, src_index th j = cur th + j.
+Proof. intros. unfold src_index, free_copy_src, zn. lia. Qed.
+Lemma dst_index_spec : forall th j, dst_index th j = cur th + j.
+Proof. intros. unfold dst_index, alloc_copy_dst, zn. lia. Qed.
+Lemma cursor_after_spec : forall r th, ss th <= se th -> (Z.of_nat (se th - ss th) < 2 ^ 64)%Z ->
+  cursor_after r th = cur th + (se th - ss th).
+Proof.
+  intros r th L W. unfold cursor_after, free_cursor_adv, free_copy_num, free_n, alloc_cursor_next, zn. destruct r.
+  - rewrite Z.mod_small by lia. lia.
+  - lia.
+Qed.
+Lemma extra_alloc_num_spec : forall th, extra_alloc_num th = ex th - cur th.
+Proof. intros. unfold extra_alloc_num, alloc_end, zn. lia. Qed.
+Lemma extra_loops_spec : forall p e, (alloc_extra_more p e = true <-> (p < e)%Z) /\ (free_extra_more p e = true <-> (p < e)%Z).
+Proof. intros. unfold alloc_extra_more, free_extra_more. rewrite Z.ltb_lt. tauto. Qed.
+Lemma write_at_end : forall b p l, write_at (length b) (p :: l) b = b ++ [p].
+Proof. intros. unfold write_at. rewrite firstn_all, Nat.sub_diag, skipn_all2 by lia. reflexivity. Qed.
 
 (* ------------------------------------------------------------------ counting *)
 Definition cnt (l : list nat) (x : nat) : nat := count_occ Nat.eq_dec l x.
@@ -50,6 +107,9 @@ Lemma cnt_seq0 : forall n x, cnt (seq 0 n) x = if x <? n then 1 else 0.
 Proof. intros. rewrite cnt_seq. cbn. reflexivity. Qed.
 Lemma cnt_firstn_skipn : forall n l x, cnt (firstn n l) x + cnt (skipn n l) x = cnt l x.
 Proof. intros. rewrite <- cnt_app, firstn_skipn. reflexivity. Qed.
+
+Lemma skipn_nth_cons : forall (l : list nat) n d, n < length l -> skipn n l = nth n l d :: skipn (S n) l.
+Proof. induction l; intros [|n] d H; cbn in *; try lia; auto. apply IHl. lia. Qed.
 
 Lemma perm_of_cnt : forall l l', (forall x, cnt l x = cnt l' x) -> Permutation l l'.
 Proof. intros. apply (Permutation_count_occ Nat.eq_dec). exact H. Qed.
@@ -109,19 +169,26 @@ Definition owns (r : bool) (th : thread) (i : nat) : Prop :=
   end.
 Definition ready (s : st) (r : bool) (m : nat) : Prop :=
   if r then push_ready (qcap s) (tape s) m = true else pop_ready (tape s) m = true.
+Definition rest_ok (th : thread) : Prop :=
+  (rest th = None /\ se th = hi th) \/ (rest th = Some (se th, hi th - se th) /\ se th < hi th).
+(* the cursor is where the callbacks' progress says it is: deallocate has handed cur + (lo - ss) pages to the queue and
+   still needs one page per own ticket; allocate has written exactly the pages it took *)
+Definition cursor_ok (r : bool) (th : thread) : Prop :=
+  if r then cur th + (lo th - ss th) + (hi th - lo th) <= length (buf th)
+  else length (buf th) = cur th + (lo th - ss th).
 Definition seg_inv (s : st) (r : bool) (th : thread) : Prop :=
-  lo th <= pos th /\ pos th < se th /\ se th <= hi th /\
-  (forall m, lo th <= m < pos th -> ready s r m) /\ (r = true -> hi th - lo th <= length (buf th)).
+  ss th = lo th /\ lo th <= pos th /\ pos th < se th /\ se th <= hi th /\
+  (forall m, lo th <= m < pos th -> ready s r m) /\ hi th - lo th <= qcap s /\ rest_ok th /\ cursor_ok r th.
 Definition knows (s : st) (th : thread) : Prop :=
   match tpc th with
   | Idle => buf th = []
-  | Claim r need => r = true -> need <= length (buf th)
+  | Claim r need => need <= qcap s /\ if r then need <= length (buf th) else buf th = []
   | WCheck r | WNeed r | TIdx r | TVer r _ => seg_inv s r th
   | TCas r k => seg_inv s r th /\ (ctr s (negb r) <= k -> ready s (negb r) k)
   | TAct r k => seg_inv s r th /\ ready s (negb r) k
-  | Act r => lo th < se th /\ se th <= hi th /\ (forall m, lo th <= m < se th -> ready s r m) /\
-             (r = true -> hi th - lo th <= length (buf th))
-  | Extra r => True
+  | Act r => ss th <= lo th /\ lo th < se th /\ se th <= hi th /\ (forall m, lo th <= m < se th -> ready s r m) /\
+             hi th - ss th <= qcap s /\ rest_ok th /\ cursor_ok r th
+  | Extra r => if r then ss th = lo th else length (buf th) = cur th
   | SWait r i => if r then exists p, buf th = [p] else buf th = []
   | YVer k => buf th = []
   | YCas k => buf th = [] /\ (npop s <= k -> ready s false k)
@@ -129,11 +196,19 @@ Definition knows (s : st) (th : thread) : Prop :=
   | PSize1 | PSize2 _ => length (buf th) = 1
   end.
 
-Definition tpg (th : thread) : list nat := held th ++ buf th.
+(* pages inside a running call: deallocate keeps the whole array, only the part beyond the cursor is still its own *)
+Definition push_phase (p : pc) : bool :=
+  match p with
+  | WCheck true | WNeed true | TIdx true | TVer true _ | TCas true _ | TAct true _ | Act true | Extra true => true
+  | _ => false
+  end.
+Definition inflight (th : thread) : list nat :=
+  if push_phase (tpc th) then skipn (cur th + (lo th - ss th)) (buf th) else buf th.
+Definition tpg (th : thread) : list nat := held th ++ inflight th.
 Definition all_thr (s : st) : list nat := flat_map tpg (threads s).
 
 Record Inv (s : st) : Prop := {
-  i_q : 1 <= qcap s;
+  i_q : pow2 (qcap s);
   i_lt : forall t th r i, nth_error (threads s) t = Some th -> owns r th i -> i < ctr s r;
   i_dis : forall t1 t2 th1 th2 r i, t1 <> t2 -> nth_error (threads s) t1 = Some th1 ->
           nth_error (threads s) t2 = Some th2 -> owns r th1 i -> owns r th2 i -> False;
@@ -177,7 +252,8 @@ Lemma seg_inv_frame : forall s s1 r th2, qcap s1 = qcap s ->
   (r = false -> forall i, is_full (tget (tape s) i) = true -> is_full (tget (tape s1) i) = true \/ (i < npop s /\ ~ in_seg th2 i)) ->
   seg_inv s r th2 -> seg_inv s1 r th2.
 Proof.
-  intros s s1 r th2 Hq Hc Hf (A & B & C & D & E). repeat split; auto.
+  intros s s1 r th2 Hq Hc Hf (A & B & C & D & E & F0 & G0 & H0). unfold seg_inv. rewrite Hq.
+  split; [auto|]. split; [auto|]. split; [auto|]. split; [auto|]. split; [|auto].
   intros m Hm. eapply ready_frame; eauto. intros -> F. destruct (Hf eq_refl _ F) as [G|[_ G]]; auto.
   exfalso. apply G. unfold in_seg. lia.
 Qed.
@@ -191,7 +267,7 @@ Proof.
   intros s s1 th2 Hq Hpu Hpo Hc Hf. unfold knows, owns in *.
   assert (RF : forall r m, (r = false -> is_full (tget (tape s) m) = true -> is_full (tget (tape s1) m) = true) ->
                ready s r m -> ready s1 r m) by (intros; eapply ready_frame; eauto).
-  destruct (tpc th2) eqn:P; auto.
+  destruct (tpc th2) eqn:P; rewrite ?Hq; auto.
   - (* WCheck *) apply seg_inv_frame; auto. intros -> i F. destruct (Hf i F) as [G|[G1 G2]]; auto. right. split; auto.
   - apply seg_inv_frame; auto. intros -> i F. destruct (Hf i F) as [G|[G1 G2]]; auto. right. split; auto.
   - apply seg_inv_frame; auto. intros -> i F. destruct (Hf i F) as [G|[G1 G2]]; auto. right. split; auto.
@@ -205,7 +281,8 @@ Proof.
     + revert A. apply seg_inv_frame; auto. intros -> i F. destruct (Hf i F) as [G|[G1 G2]]; auto. right. split; auto.
     + revert B. apply RF. intros Hr F. destruct r; cbn in Hr; try discriminate.
       destruct (Hf k F) as [G|[G1 G2]]; auto; exfalso; apply G2; right; auto.
-  - (* Act *) intros (A & B & C & D). repeat split; auto. intros m Hm. specialize (C m Hm). revert C. apply RF.
+  - (* Act *) intros (A0 & A & B & C & D & E0 & F0). split; [auto|]. split; [auto|]. split; [auto|]. split; [|auto].
+    intros m Hm. specialize (C m Hm). revert C. apply RF.
     intros -> F. destruct (Hf m F) as [G|[G1 G2]]; auto; exfalso; apply G2; split; auto; unfold in_seg; lia.
   - (* YCas *) intros [A B]. split; auto. intros Hk. assert (Hk0 : npop s <= k) by lia. specialize (B Hk0). revert B.
     apply RF. intros _ F. destruct (Hf k F) as [G|[G1 G2]]; auto; lia.
@@ -440,95 +517,127 @@ End StepCases.
 Lemma inv_recycled : forall s p, Inv s -> Inv (with_recycled s p).
 Proof. intros s p I. destruct I. constructor; auto. Qed.
 
-Ltac prj := cbn [tpc goto with_pos with_bufs with_seg with_ex finish lo hi se pos buf held ex prog opi results].
+Ltac prj := cbn [tpc goto with_pos with_bufs with_seg with_ex finish lo hi ss se pos cur rest buf held ex prog opi results].
 Ltac owns_same P := let r := fresh "r" in let i := fresh "i" in intros r i; unfold owns, in_seg; prj; rewrite ?P; try tauto.
-Ltac cnt_tpg := intro x; unfold tpg; prj; rewrite ?cnt_app, ?cnt_nil; try lia.
+
+Lemma inflight_same : forall th th', push_phase (tpc th') = push_phase (tpc th) -> cur th' = cur th ->
+  lo th' - ss th' = lo th - ss th -> buf th' = buf th -> inflight th' = inflight th.
+Proof. intros th th' A B C D. unfold inflight. rewrite A, B, C, D. reflexivity. Qed.
+Lemma inflight_plain : forall th, push_phase (tpc th) = false -> inflight th = buf th.
+Proof. intros th H. unfold inflight. rewrite H. reflexivity. Qed.
+Lemma inflight_push : forall th, push_phase (tpc th) = true -> inflight th = skipn (cur th + (lo th - ss th)) (buf th).
+Proof. intros th H. unfold inflight. rewrite H. reflexivity. Qed.
+(* the in-flight pages did not change (same phase class, same cursor, same array) *)
+Ltac tpg_same P :=
+  let x := fresh "x" in intro x; unfold tpg;
+  match goal with |- cnt (held ?a ++ inflight ?a) _ = cnt (held ?b ++ inflight ?b) _ =>
+    replace (inflight a) with (inflight b);
+    [ prj; reflexivity
+    | symmetry; apply inflight_same; prj; rewrite ?P; try reflexivity;
+      repeat match goal with r : bool |- _ => destruct r end; reflexivity ] end.
+(* both threads are outside the deallocate phases: in-flight = buf *)
+Ltac cnt_tpg P := intro x; unfold tpg; rewrite !inflight_plain by (prj; rewrite ?P; reflexivity); prj;
+                  rewrite ?cnt_app, ?cnt_nil; try lia.
 
 Lemma inv_step : forall s t s', Inv s -> step s t = Some s' -> Inv s'.
 Proof.
   intros s t s' I H. unfold step in H. destruct (nth_error (threads s) t) as [th|] eqn:Ht; [|discriminate].
   pose proof (i_kn _ I _ _ Ht) as K. unfold step_thread in H. unfold knows in K.
+  destruct (pow2_pos _ (i_q _ I)) as [Q1 Q64].
   destruct (tpc th) eqn:P.
   - (* Idle *) destruct (cur_op th) as [[n|n| | | | | | ]|] eqn:Op; try discriminate.
     + (* OAlloc *) inversion H; subst s'; clear H. apply (step_local _ _ _ I Ht).
       * owns_same P.
-      * unfold knows; prj. discriminate.
-      * cnt_tpg. rewrite K, cnt_nil. lia.
+      * unfold knows; prj. split; [rewrite alloc_need_spec; lia | reflexivity].
+      * cnt_tpg P. rewrite K, cnt_nil. lia.
     + (* OFree *) inversion H; subst s'; clear H. apply (step_local _ _ _ I Ht).
       * owns_same P.
-      * unfold knows; prj. intros _. rewrite free_need_spec. lia.
-      * cnt_tpg. rewrite K, cnt_nil. pose proof (cnt_firstn_skipn n (held th) x). lia.
+      * unfold knows; prj. rewrite free_need_spec. split; lia.
+      * cnt_tpg P. rewrite K, cnt_nil. pose proof (cnt_firstn_skipn n (held th) x). lia.
     + (* OPoolPop *) inversion H; subst s'; clear H. apply (step_local _ _ _ I Ht).
       * owns_same P.
-      * unfold knows; prj. discriminate.
-      * cnt_tpg. rewrite K, cnt_nil. lia.
+      * unfold knows; prj. rewrite pool_pop_n_one. split; [lia | reflexivity].
+      * cnt_tpg P. rewrite K, cnt_nil. lia.
     + (* OPoolPush *) destruct (held th) as [|p h] eqn:Hh; inversion H; subst s'; clear H.
       * apply (step_local _ _ _ I Ht).
         -- owns_same P.
         -- unfold knows; prj. reflexivity.
-        -- cnt_tpg. rewrite Hh, K, !cnt_nil. lia.
+        -- cnt_tpg P. rewrite Hh, K, !cnt_nil. lia.
       * apply (step_local (with_recycled s p) t th (inv_recycled _ _ I) Ht).
         -- owns_same P.
         -- unfold knows; prj. reflexivity.
-        -- cnt_tpg. rewrite Hh, K, cnt_nil, (cnt_cons p h). lia.
+        -- cnt_tpg P. rewrite Hh, K, cnt_nil, (cnt_cons p h). lia.
     + (* ONew *) inversion H; subst s'; clear H. apply (step_upstream _ _ _ I Ht).
       * owns_same P.
       * unfold knows; prj. reflexivity.
-      * cnt_tpg. rewrite K, cnt_nil, cnt_one.
+      * cnt_tpg P. rewrite K, cnt_nil, cnt_one.
         destruct (Nat.eqb_spec (fresh s) x); destruct (Nat.ltb_spec x (fresh s)); destruct (Nat.ltb_spec x (fresh s + 1)); lia.
     + (* OSPop *) inversion H; subst s'; clear H. replace (S (npop s)) with (ctr s false + 1) by (cbn; lia).
       apply (step_gain _ _ _ I Ht).
       * owns_same P. cbn. intuition lia.
       * unfold knows; prj. exact K.
-      * cnt_tpg.
+      * cnt_tpg P.
     + (* OSPush *) destruct (held th) as [|p h] eqn:Hh; inversion H; subst s'; clear H.
       * apply (step_local _ _ _ I Ht).
         -- owns_same P.
         -- unfold knows; prj. reflexivity.
-        -- cnt_tpg. rewrite Hh, K, !cnt_nil. lia.
+        -- cnt_tpg P. rewrite Hh, K, !cnt_nil. lia.
       * replace (S (npush s)) with (ctr (with_recycled s p) true + 1) by (cbn; lia).
         apply (step_gain (with_recycled s p) t th (inv_recycled _ _ I) Ht).
         -- owns_same P. cbn. intuition lia.
         -- unfold knows; prj. eauto.
-        -- cnt_tpg. rewrite Hh, K, cnt_nil, (cnt_cons p h). lia.
+        -- cnt_tpg P. rewrite Hh, K, cnt_nil, (cnt_cons p h). lia.
     + (* OTryPop *) inversion H; subst s'; clear H. apply (step_local _ _ _ I Ht).
       * owns_same P.
       * unfold knows; prj. exact K.
-      * cnt_tpg.
-  - (* Claim *) inversion H; subst s'; clear H. apply (step_gain _ _ _ I Ht).
+      * cnt_tpg P.
+  - (* Claim *) destruct K as [KQ KB]. destruct (seg_plan r (qcap s) (ctr s r) need) as [e rs] eqn:SP.
+    inversion H; subst s'; clear H. apply (step_gain _ _ _ I Ht).
     + owns_same P. destruct (Nat.eqb_spec need 0); cbn; intuition lia.
-    + unfold knows; prj. destruct (Nat.eqb_spec need 0); cbn; auto.
-      unfold seg_inv; prj. unfold first_seg_end. pose proof (round_end_gt (qcap s) (ctr s r) (i_q _ I)).
-      repeat split; try lia. intros Hr. specialize (K Hr). lia.
-    + cnt_tpg.
-  - (* WCheck *) destruct K as (K1 & K2 & K3 & K4 & K5).
+    + unfold knows; prj. destruct (Nat.eqb_spec need 0) as [Z0|Z0]; prj.
+      * destruct r; [reflexivity | rewrite KB; reflexivity].
+      * pose proof (seg_plan_spec r (qcap s) (ctr s r) need (i_q _ I) ltac:(lia)) as SS. rewrite SP in SS. cbn [fst snd] in SS.
+        destruct SS as [S1 S2]. unfold seg_inv, rest_ok, cursor_ok; prj. cbn [with_ctr qcap].
+        split; [reflexivity|]. split; [lia|]. split; [lia|]. split; [lia|]. split; [intros m Hm; lia|]. split; [lia|].
+        split; [destruct S2 as [[-> ->]|[-> S3]]; [left|right]; split; auto; f_equal; f_equal; lia|].
+        destruct r; [lia | rewrite KB; cbn; lia].
+    + intro x. unfold tpg. rewrite (inflight_plain th) by (rewrite P; reflexivity). unfold inflight. prj.
+      destruct (Nat.eqb_spec need 0); destruct r; cbn [push_phase]; rewrite ?Nat.sub_diag; cbn [Nat.add skipn]; reflexivity.
+  - (* WCheck *) destruct K as (K0 & K1 & K2 & K3 & K4 & K5 & K6 & K7).
     destruct (if r then push_ready (qcap s) (tape s) (pos th) else pop_ready (tape s) (pos th)) eqn:R.
     + assert (RD : ready s r (pos th)) by (unfold ready; destruct r; exact R).
       assert (K4' : forall m, lo th <= m < S (pos th) -> ready s r m).
       { intros m Hm. destruct (Nat.eq_dec m (pos th)); [subst; auto | apply K4; lia]. }
       destruct (Nat.eqb_spec (S (pos th)) (se th)); inversion H; subst s'; clear H; apply (step_local _ _ _ I Ht).
       * owns_same P.
-      * unfold knows; prj. repeat split; try lia; auto. intros m Hm. apply K4'. lia.
-      * cnt_tpg.
+      * unfold knows; prj. split; [lia|]. split; [lia|]. split; [lia|]. split; [intros m Hm; apply K4'; lia|].
+        split; [lia|]. split; auto.
+      * tpg_same P.
       * owns_same P.
-      * unfold knows, seg_inv; prj. repeat split; try lia; auto.
-      * cnt_tpg.
+      * unfold knows, seg_inv; prj. split; [auto|]. split; [lia|]. split; [lia|]. split; [lia|]. split; [auto|]. auto.
+      * tpg_same P.
     + inversion H; subst s'; clear H; apply (step_local _ _ _ I Ht).
       * owns_same P.
-      * unfold knows, seg_inv; prj. repeat split; try lia; auto.
-      * cnt_tpg.
+      * unfold knows, seg_inv; prj. repeat (split; [first [assumption | lia]|]). assumption.
+      * tpg_same P.
   - (* WNeed *) destruct (comp_now r (npop s) (npush s) (qcap s) (lo th) (se th - lo th));
-      inversion H; subst s'; clear H; apply (step_local _ _ _ I Ht); try (owns_same P); try cnt_tpg; unfold knows; prj; exact K.
-  - (* TIdx *) inversion H; subst s'; clear H; apply (step_local _ _ _ I Ht); try (owns_same P); try cnt_tpg; unfold knows; prj; exact K.
+      inversion H; subst s'; clear H; apply (step_local _ _ _ I Ht); [owns_same P | unfold knows; prj; exact K | tpg_same P
+                                                                      | owns_same P | unfold knows; prj; exact K | tpg_same P].
+  - (* TIdx *) inversion H; subst s'; clear H; apply (step_local _ _ _ I Ht); [owns_same P | unfold knows; prj; exact K | tpg_same P].
   - (* TVer *) destruct (if r then pop_ready (tape s) k else push_ready (qcap s) (tape s) k) eqn:R;
-      inversion H; subst s'; clear H; apply (step_local _ _ _ I Ht); try (owns_same P); try cnt_tpg; unfold knows; prj; auto.
-    split; auto. intros _. unfold ready. destruct r; exact R.
+      inversion H; subst s'; clear H; apply (step_local _ _ _ I Ht).
+    + owns_same P.
+    + unfold knows; prj. split; auto. intros _. unfold ready. destruct r; exact R.
+    + tpg_same P.
+    + owns_same P.
+    + unfold knows; prj. exact K.
+    + tpg_same P.
   - (* TCas *) destruct K as [KA KB]. destruct (Nat.eqb_spec (ctr s (negb r)) k) as [E|E]; inversion H; subst s'; clear H.
     + replace (S k) with (ctr s (negb r) + 1) by lia. apply (step_gain _ _ _ I Ht).
       * owns_same P. rewrite E. intuition (subst; try lia; auto).
       * unfold knows; prj. split; [exact KA | apply KB; lia].
-      * cnt_tpg.
-    + apply (step_local _ _ _ I Ht); try (owns_same P); try cnt_tpg. unfold knows; prj. exact KA.
+      * tpg_same P.
+    + apply (step_local _ _ _ I Ht); [owns_same P | unfold knows; prj; exact KA | tpg_same P].
   - (* TAct *) destruct K as [KA KB]. destruct r.
     + (* deallocate compensates: pop cell k, return the page upstream *)
       unfold ready in KB. cbn [negb] in KB. unfold pop_ready in KB. destruct (tget (tape s) k) as [|p|] eqn:E; try discriminate.
@@ -539,7 +648,8 @@ Proof.
       * owns_same P; try (destruct r; intuition (try discriminate; try congruence)).
       * unfold knows; prj. eapply (seg_inv_frame s); [reflexivity | | discriminate | exact KA].
         intros i Hi. cbn [with_mem tape]. destruct (Nat.eq_dec i k) as [->|Hne]; [apply tget_tset_same | rewrite tget_tset_other; auto].
-      * cnt_tpg. cbn [with_mem returned]. lia.
+      * intro x. assert (TS : forall y, cnt (tpg (goto th (WCheck true))) y = cnt (tpg th) y) by (tpg_same P).
+        rewrite TS. cbn [upstream_free with_mem returned]. rewrite cnt_app. lia.
     + (* allocate compensates: push a fresh page into cell k *)
       unfold ready in KB. cbn [negb] in KB.
       assert (Ok : owns true th k) by (unfold owns; rewrite P; right; split; reflexivity).
@@ -551,84 +661,126 @@ Proof.
       * unfold knows; prj. eapply (seg_inv_frame s); [reflexivity | | | exact KA].
         -- intros i Hi. cbn [with_mem tape]. destruct (Nat.eq_dec i k) as [->|Hne]; [congruence | rewrite tget_tset_other; auto].
         -- intros _ i Hi. left. cbn [with_mem tape]. destruct (Nat.eq_dec i k) as [->|Hne]; [rewrite tget_tset_same; reflexivity | rewrite tget_tset_other; auto].
-      * cnt_tpg. rewrite cnt_one.
+      * intro x. assert (TS : forall y, cnt (tpg (goto th (WCheck false))) y = cnt (tpg th) y) by (tpg_same P).
+        rewrite TS. rewrite cnt_one.
         destruct (Nat.eqb_spec (fresh s) x); destruct (Nat.ltb_spec x (fresh s)); destruct (Nat.ltb_spec x (fresh s + 1)); lia.
-  - (* Act *) destruct K as (K1 & K2 & K3 & K4).
+  - (* Act *) destruct K as (K0 & K1 & K2 & K3 & K4 & K5 & K6).
     assert (Ok : owns r th (lo th)) by (unfold owns, in_seg; rewrite P; split; auto; lia).
     pose proof (K3 (lo th) ltac:(lia)) as R0.
+    assert (CA : cursor_after r th = cur th + (se th - ss th)) by (apply cursor_after_spec; lia).
+    assert (SL : S (lo th) - ss th = S (lo th - ss th)) by lia.
     destruct r.
-    + (* deallocate: write the next page into cell lo *)
-      unfold ready in R0. pose proof (i_c4 _ I _ _ _ Ht Ok) as E.
-      destruct (buf th) as [|p b] eqn:B; [specialize (K4 eq_refl); cbn in K4; lia|].
+    + (* deallocate: the push callback copies the page at the cursor into cell lo *)
+      unfold ready in R0. pose proof (i_c4 _ I _ _ _ Ht Ok) as E. unfold cursor_ok in K6.
+      rewrite src_index_spec in H. set (d := cur th + (lo th - ss th)) in *. set (p := nth d (buf th) 0) in *.
       unfold put in H. rewrite E, R0 in H. cbn [is_free andb] in H.
       assert (PR : forall m, push_ready (qcap s) (tape s) m = true ->
                    push_ready (qcap s) (tset (tape s) (lo th) (Full p)) m = true).
       { intros m. apply push_ready_mono. intros i Hi. destruct (Nat.eq_dec i (lo th)) as [->|Hne]; [congruence | rewrite tget_tset_other; auto]. }
-      specialize (K4 eq_refl). cbn [length] in K4.
-      destruct (Nat.eqb_spec (S (lo th)) (se th)) as [e1|e1]; [destruct (Nat.eqb_spec (se th) (hi th)) as [e2|e2]|];
-        inversion H; subst s'; clear H; apply (step_put _ _ _ I Ht (lo th) p _ (fresh s)); auto;
-        try (owns_same P; destruct r; intuition (try discriminate; try congruence; try lia));
-        try (cnt_tpg; rewrite B, (cnt_cons p b); lia).
-      * unfold knows; prj. exact Logic.I.
-      * unfold knows, seg_inv; prj. repeat split; try lia.
-      * unfold knows; prj. repeat split; try lia. intros m Hm. unfold ready. cbn [with_mem qcap tape]. apply PR. apply (K3 m). lia.
-    + (* allocate: read the page of cell lo *)
+      assert (IF : inflight th = p :: skipn (S d) (buf th)).
+      { rewrite inflight_push by (rewrite P; reflexivity). apply skipn_nth_cons. unfold d. lia. }
+      unfold cursor_after in CA.
+      assert (OW : forall th', tpc th' = Extra true \/ ((tpc th' = WCheck true \/ tpc th' = Act true) /\ lo th' = S (lo th) /\ hi th' = hi th) ->
+                   (tpc th' = Extra true -> S (lo th) = hi th) ->
+                   forall r i, owns r th' i <-> owns r th i /\ ~ (r = true /\ i = lo th)).
+      { intros th' [X|[[X|X] [X1 X2]]] Y r i; unfold owns, in_seg; rewrite X, P, ?X1, ?X2; try specialize (Y X);
+          destruct r; intuition (try discriminate; try congruence; try lia). }
+      destruct (Nat.eqb_spec (S (lo th)) (se th)) as [e1|e1]; [destruct K5 as [[e2 e3]|[e2 e3]]; rewrite e2 in H|];
+        inversion H; subst s'; clear H; apply (step_put _ _ _ I Ht (lo th) p _ (fresh s) Ok R0).
+      * apply OW; prj; auto. intros _. lia.
+      * unfold knows; prj. reflexivity.
+      * intro x. unfold tpg. rewrite IF. rewrite inflight_push by (prj; reflexivity). prj. rewrite CA.
+        match goal with |- context [skipn (cur th + (se th - ss th) + ?z) _] =>
+          replace (cur th + (se th - ss th) + z) with (S d) by (unfold d; lia) end. rewrite !cnt_app, (cnt_cons p (skipn (S d) (buf th))). lia.
+      * apply OW; prj; auto. intros X; discriminate X.
+      * unfold knows, seg_inv, rest_ok, cursor_ok; prj. rewrite CA.
+        split; [lia|]. split; [lia|]. split; [lia|]. split; [lia|]. split; [intros m Hm; lia|]. split; [cbn [with_mem qcap]; lia|].
+        split; [left; split; [reflexivity | lia] | lia].
+      * intro x. unfold tpg. rewrite IF. rewrite inflight_push by (prj; reflexivity). prj. rewrite CA.
+        match goal with |- context [skipn (cur th + (se th - ss th) + ?z) _] =>
+          replace (cur th + (se th - ss th) + z) with (S d) by (unfold d; lia) end. rewrite !cnt_app, (cnt_cons p (skipn (S d) (buf th))). lia.
+      * apply OW; prj; auto. intros X; discriminate X.
+      * unfold knows, rest_ok, cursor_ok; prj. split; [lia|]. split; [lia|]. split; [lia|].
+        split; [intros m Hm; unfold ready; cbn [with_mem qcap tape]; apply PR; apply (K3 m); lia|]. split; [exact K4|]. split; [exact K5|]. lia.
+      * intro x. unfold tpg. rewrite IF. rewrite inflight_push by (prj; reflexivity). prj. rewrite SL.
+        replace (cur th + S (lo th - ss th)) with (S d) by (unfold d; lia). rewrite !cnt_app, (cnt_cons p (skipn (S d) (buf th))). lia.
+    + (* allocate: the pop callback copies the page of cell lo to the cursor *)
       unfold ready, pop_ready in R0. destruct (tget (tape s) (lo th)) as [|p|] eqn:E; try discriminate.
-      unfold take in H. rewrite E in H.
-      destruct (Nat.eqb_spec (S (lo th)) (se th)) as [e1|e1]; [destruct (Nat.eqb_spec (se th) (hi th)) as [e2|e2]|];
-        inversion H; subst s'; clear H; apply (step_take _ _ _ I Ht (lo th) p); auto;
-        try (owns_same P; destruct r; intuition (try discriminate; try congruence; try lia));
-        try (cnt_tpg; lia).
-      * unfold knows; prj. exact Logic.I.
-      * unfold knows, seg_inv; prj. repeat split; try lia; try discriminate.
-      * unfold knows; prj. repeat split; try lia; try discriminate. intros m Hm. unfold ready, pop_ready. cbn [with_mem tape].
-        rewrite tget_tset_other by lia. apply (K3 m). lia.
+      unfold take in H. rewrite E in H. unfold cursor_ok in K6.
+      rewrite dst_index_spec in H. rewrite <- K6 in H. rewrite write_at_end in H.
+      assert (IF : inflight th = buf th) by (apply inflight_plain; rewrite P; reflexivity).
+      unfold cursor_after in CA.
+      assert (OW : forall th', tpc th' = Extra false \/ ((tpc th' = WCheck false \/ tpc th' = Act false) /\ lo th' = S (lo th) /\ hi th' = hi th) ->
+                   (tpc th' = Extra false -> S (lo th) = hi th) ->
+                   forall r i, owns r th' i <-> owns r th i /\ ~ (r = false /\ i = lo th)).
+      { intros th' [X|[[X|X] [X1 X2]]] Y r i; unfold owns, in_seg; rewrite X, P, ?X1, ?X2; try specialize (Y X);
+          destruct r; intuition (try discriminate; try congruence; try lia). }
+      assert (CT : forall th', push_phase (tpc th') = false -> held th' = held th -> buf th' = buf th ++ [p] ->
+                   forall x, cnt (tpg th') x + cnt (returned s) x = cnt (tpg th) x + cnt (returned s) x + cnt [p] x).
+      { intros th' X1 X2 X3 x. unfold tpg. rewrite IF, (inflight_plain th' X1), X2, X3, !cnt_app. lia. }
+      destruct (Nat.eqb_spec (S (lo th)) (se th)) as [e1|e1]; [destruct K5 as [[e2 e3]|[e2 e3]]; rewrite e2 in H|];
+        inversion H; subst s'; clear H; apply (step_take _ _ _ I Ht (lo th) p _ _ Ok E).
+      * apply OW; prj; auto. intros _. lia.
+      * unfold knows; prj. rewrite CA, app_length. cbn. lia.
+      * apply CT; reflexivity.
+      * apply OW; prj; auto. intros X; discriminate X.
+      * unfold knows, seg_inv, rest_ok, cursor_ok; prj. rewrite CA, app_length. cbn [length].
+        split; [lia|]. split; [lia|]. split; [lia|]. split; [lia|]. split; [intros m Hm; lia|]. split; [cbn [with_mem qcap]; lia|].
+        split; [left; split; [reflexivity | lia] | lia].
+      * apply CT; reflexivity.
+      * apply OW; prj; auto. intros X; discriminate X.
+      * unfold knows, rest_ok, cursor_ok; prj. rewrite app_length. cbn [length]. split; [lia|]. split; [lia|]. split; [lia|].
+        split; [|split; [exact K4|split; [exact K5|lia]]].
+        intros m Hm. unfold ready, pop_ready. cbn [with_mem tape]. rewrite tget_tset_other by lia. apply (K3 m). lia.
+      * apply CT; reflexivity.
   - (* Extra *) destruct r.
     + inversion H; subst s'; clear H. unfold upstream_free. apply (step_upstream _ _ _ I Ht).
       * owns_same P.
       * unfold knows; prj. reflexivity.
-      * cnt_tpg.
+      * intro x. unfold tpg. rewrite (inflight_push th) by (rewrite P; reflexivity).
+        rewrite (inflight_plain (finish th (held th) (free_res th))) by (prj; reflexivity). prj.
+        rewrite K, Nat.sub_diag, Nat.add_0_r. rewrite !cnt_app, cnt_nil. lia.
     + unfold upstream_alloc in H. inversion H; subst s'; clear H. apply (step_upstream _ _ _ I Ht).
       * owns_same P.
       * unfold knows; prj. reflexivity.
-      * cnt_tpg. rewrite cnt_seq.
-        destruct (Nat.leb_spec (fresh s) x); destruct (Nat.ltb_spec x (fresh s + ex th)); destruct (Nat.ltb_spec x (fresh s)); cbn [andb]; lia.
+      * cnt_tpg P. rewrite <- K, firstn_all, cnt_seq.
+        destruct (Nat.leb_spec (fresh s) x); destruct (Nat.ltb_spec x (fresh s + extra_alloc_num th)); destruct (Nat.ltb_spec x (fresh s)); cbn [andb]; lia.
   - (* SWait *) assert (Ok : owns r th i) by (unfold owns; rewrite P; auto). destruct r.
     + destruct (push_ready (qcap s) (tape s) i) eqn:R; try discriminate. destruct K as [p B]. rewrite B in H.
       pose proof (i_c4 _ I _ _ _ Ht Ok) as E. unfold put in H. rewrite E, R in H. cbn [is_free andb] in H.
       inversion H; subst s'; clear H. apply (step_put _ _ _ I Ht i p _ (fresh s)); auto.
       * owns_same P; try (destruct r; intuition (try discriminate; try congruence)).
       * unfold knows; prj. reflexivity.
-      * cnt_tpg. rewrite B. lia.
+      * cnt_tpg P. rewrite B. lia.
     + destruct (pop_ready (tape s) i) eqn:R; try discriminate. unfold pop_ready in R.
       destruct (tget (tape s) i) as [|p|] eqn:E; try discriminate. unfold take in H. rewrite E in H.
       inversion H; subst s'; clear H. apply (step_take _ _ _ I Ht i p); auto.
       * owns_same P; try (destruct r; intuition (try discriminate; try congruence)).
       * unfold knows; prj. reflexivity.
-      * cnt_tpg. rewrite K, cnt_nil. lia.
+      * cnt_tpg P. rewrite K, cnt_nil. lia.
   - (* YVer *) destruct (pop_ready (tape s) k) eqn:R; [|destruct (Nat.eqb_spec (npop s) k)];
       inversion H; subst s'; clear H; apply (step_local _ _ _ I Ht); try (owns_same P); unfold knows; prj; auto.
-    all: cnt_tpg; rewrite ?K, ?cnt_nil; lia.
+    all: cnt_tpg P; rewrite ?K, ?cnt_nil; lia.
   - (* YCas *) destruct K as [KA KB]. destruct (Nat.eqb_spec (npop s) k) as [e|e]; inversion H; subst s'; clear H.
     + replace (S k) with (ctr s false + 1) by (cbn; lia). apply (step_gain _ _ _ I Ht).
       * owns_same P. cbn [ctr]. rewrite e. intuition (subst; try lia; auto).
       * unfold knows; prj. split; auto. apply KB. lia.
-      * cnt_tpg.
-    + apply (step_local _ _ _ I Ht); try (owns_same P); try cnt_tpg. unfold knows; prj. exact KA.
+      * cnt_tpg P.
+    + apply (step_local _ _ _ I Ht); [owns_same P | unfold knows; prj; exact KA | cnt_tpg P].
   - (* YAct *) destruct K as [KA KB]. unfold ready, pop_ready in KB.
     destruct (tget (tape s) k) as [|p|] eqn:E; try discriminate. unfold take in H. rewrite E in H.
     inversion H; subst s'; clear H. apply (step_take _ _ _ I Ht k p); auto.
     + unfold owns. rewrite P. auto.
     + owns_same P; try (destruct r; intuition (try discriminate; try congruence)).
     + unfold knows; prj. reflexivity.
-    + cnt_tpg. rewrite KA, cnt_nil. lia.
-  - (* PSize1 *) inversion H; subst s'; clear H; apply (step_local _ _ _ I Ht); try (owns_same P); try cnt_tpg. unfold knows; prj. exact K.
+    + cnt_tpg P. rewrite KA, cnt_nil. lia.
+  - (* PSize1 *) inversion H; subst s'; clear H; apply (step_local _ _ _ I Ht); [owns_same P | unfold knows; prj; exact K | cnt_tpg P].
   - (* PSize2 *) destruct (pool_drops (pcap s) (npush s) a); inversion H; subst s'; clear H.
     + unfold upstream_free. apply (step_upstream _ _ _ I Ht).
       * owns_same P.
       * unfold knows; prj. reflexivity.
-      * cnt_tpg.
-    + apply (step_local _ _ _ I Ht); [owns_same P | unfold knows; prj; intros _; rewrite pool_push_n_one, K; auto | cnt_tpg].
+      * cnt_tpg P.
+    + apply (step_local _ _ _ I Ht); [owns_same P | unfold knows; prj; rewrite pool_push_n_one, K; split; lia | cnt_tpg P].
 Qed.
 
 (* ------------------------------------------------------------------ initial state, reachability *)
@@ -639,7 +791,7 @@ Proof. induction progs; intros; cbn; auto. Qed.
 Lemma nth_map_mk : forall progs t th, nth_error (map mk_thread progs) t = Some th -> exists p, th = mk_thread p.
 Proof. intros. rewrite nth_error_map in H. destruct (nth_error progs t); inversion H. eauto. Qed.
 
-Lemma inv_init : forall qc pc progs, 1 <= qc -> Inv (init qc pc progs).
+Lemma inv_init : forall qc pc progs, pow2 qc -> Inv (init qc pc progs).
 Proof.
   intros qc pc progs Hq.
   assert (NO : forall t th r i, nth_error (threads (init qc pc progs)) t = Some th -> owns r th i -> False).
@@ -658,7 +810,7 @@ Proof.
   - intros x. unfold all_thr. cbn [init threads]. rewrite all_thr_init. cbn. reflexivity.
 Qed.
 
-Theorem pa_inv : forall qc pc progs s, 1 <= qc -> Reach qc pc progs s -> Inv s.
+Theorem pa_inv : forall qc pc progs s, pow2 qc -> Reach qc pc progs s -> Inv s.
 Proof.
   intros qc pc progs s Hq R. eapply (inv_reachable st step Inv); eauto.
   - apply inv_init; auto.
@@ -666,14 +818,16 @@ Proof.
 Qed.
 
 (* ------------------------------------------------------------------ single owner, conservation *)
-Definition pages_of (s : st) : list nat := tape_pages (tape s) ++ all_held s ++ all_buf s ++ returned s.
+(* pages inside running calls: for a deallocate only the part of its array it has not handed over yet *)
+Definition all_inflight (s : st) : list nat := flat_map inflight (threads s).
+Definition pages_of (s : st) : list nat := tape_pages (tape s) ++ all_held s ++ all_inflight s ++ returned s.
 
-Lemma cnt_all_thr : forall l x, cnt (flat_map tpg l) x = cnt (flat_map held l) x + cnt (flat_map buf l) x.
+Lemma cnt_all_thr : forall l x, cnt (flat_map tpg l) x = cnt (flat_map held l) x + cnt (flat_map inflight l) x.
 Proof. induction l; intros; cbn; auto. unfold tpg at 1. rewrite !cnt_app, IHl. lia. Qed.
 
 Lemma cnt_pages_of : forall s x, Inv s -> cnt (pages_of s) x = if x <? fresh s then 1 else 0.
 Proof.
-  intros s x I. unfold pages_of, all_held, all_buf. rewrite !cnt_app. pose proof (i_cnt _ I x) as H.
+  intros s x I. unfold pages_of, all_held, all_inflight. rewrite !cnt_app. pose proof (i_cnt _ I x) as H.
   unfold all_thr in H. rewrite cnt_all_thr in H. lia.
 Qed.
 
@@ -686,13 +840,13 @@ Proof.
   destruct (x <? fresh s); lia.
 Qed.
 
-Lemma quiescent_buf : forall s, Inv s -> quiescent s = true -> all_buf s = [].
+Lemma quiescent_buf : forall s, Inv s -> quiescent s = true -> all_inflight s = [].
 Proof.
-  intros s I Q. unfold all_buf, quiescent in *.
+  intros s I Q. unfold all_inflight, quiescent in *.
   assert (H : forall t th, nth_error (threads s) t = Some th -> knows s th) by (apply (i_kn _ I)).
   revert Q H. generalize (threads s). induction l as [|th l IH]; intros Q H; cbn in *; auto.
   apply andb_prop in Q. destruct Q as [Q1 Q2]. specialize (H 0 th eq_refl) as K. unfold knows in K. unfold is_idle in Q1.
-  destruct (tpc th); try discriminate. rewrite K. cbn. apply IH; auto. intros t th' E. apply (H (S t) th' E).
+  destruct (tpc th) eqn:P; try discriminate. rewrite inflight_plain by (rewrite P; reflexivity). rewrite K. cbn. apply IH; auto. intros t th' E. apply (H (S t) th' E).
 Qed.
 
 Theorem pa_conservation_quiescent : forall s, Inv s -> quiescent s = true ->
@@ -909,7 +1063,8 @@ Definition news (s : st) : nat := list_sum (map nnew (threads s)).
 Definition strict_pc (p : pc) : bool := match p with Idle | SWait _ _ | YVer _ | YCas _ | YAct _ => true | _ => false end.
 Record SInv (s : st) : Prop := {
   s_prog : forall t th, nth_error (threads s) t = Some th -> forallb strict_op (prog th) = true /\ strict_pc (tpc th) = true;
-  s_news : fresh s = news s }.
+  s_news : fresh s = news s;
+  s_ret : returned s = [] }.
 
 Lemma sum_set_nth : forall (f : thread -> nat) l t th th', nth_error l t = Some th ->
   list_sum (map f (set_nth t th' l)) + f th = list_sum (map f l) + f th'.
@@ -919,15 +1074,16 @@ Proof.
   - specialize (IHl t th th' H). unfold list_sum in *. cbn [fold_right]. lia.
 Qed.
 
-Lemma take_same : forall s k s1 l, take s k = (s1, l) -> threads s1 = threads s /\ fresh s1 = fresh s.
+Lemma take_same : forall s k s1 l, take s k = (s1, l) -> threads s1 = threads s /\ fresh s1 = fresh s /\ returned s1 = returned s.
 Proof. intros s k s1 l H. unfold take in H. destruct (tget (tape s) k); inversion H; subst; auto. Qed.
-Lemma put_same : forall s k p, threads (put s k p) = threads s /\ fresh (put s k p) = fresh s.
+Lemma put_same : forall s k p, threads (put s k p) = threads s /\ fresh (put s k p) = fresh s /\ returned (put s k p) = returned s.
 Proof. intros. unfold put. destruct (is_free (tget (tape s) k) && push_ready (qcap s) (tape s) k); auto. Qed.
 
 Lemma sinv_upd : forall s s1 t th th', SInv s -> nth_error (threads s) t = Some th -> threads s1 = threads s ->
-  prog th' = prog th -> strict_pc (tpc th') = true -> fresh s1 + nnew th = fresh s + nnew th' -> SInv (upd s1 t th').
+  prog th' = prog th -> strict_pc (tpc th') = true -> fresh s1 + nnew th = fresh s + nnew th' ->
+  returned s1 = returned s -> SInv (upd s1 t th').
 Proof.
-  intros s s1 t th th' S Ht Hths Hp Hpc Hf. constructor.
+  intros s s1 t th th' S Ht Hths Hp Hpc Hf Hr. constructor; [| |cbn [upd with_threads returned]; rewrite Hr; apply (s_ret _ S)].
   - intros t2 th2 H2. cbn [upd with_threads threads] in H2. rewrite Hths in H2.
     destruct (nth_upd_cases _ _ _ _ _ _ _ Ht H2) as [[-> ->]|[Hne H2']].
     + rewrite Hp. split; auto. apply (s_prog _ S _ _ Ht).
@@ -955,14 +1111,14 @@ Proof.
   - destruct r.
     + destruct (push_ready (qcap s) (tape s) i); try discriminate. destruct (buf th); inversion H; subst s'; clear H.
       * eapply sinv_upd; eauto. rewrite nnew_finish. cbn. lia.
-      * destruct (put_same s i n). eapply sinv_upd; eauto. rewrite nnew_finish. cbn. lia.
+      * destruct (put_same s i n) as (? & ? & ?). eapply sinv_upd; eauto. rewrite nnew_finish. cbn. lia.
     + destruct (pop_ready (tape s) i); try discriminate. destruct (take s i) as [s1 l] eqn:T.
-      destruct (take_same _ _ _ _ T). inversion H; subst s'; clear H. eapply sinv_upd; eauto.
+      destruct (take_same _ _ _ _ T) as (? & ? & ?). inversion H; subst s'; clear H. eapply sinv_upd; eauto.
       rewrite nnew_finish. destruct l; cbn; lia.
   - destruct (pop_ready (tape s) k); [|destruct (npop s =? k)]; inversion H; subst s'; clear H; eapply sinv_upd; eauto.
     rewrite nnew_finish. cbn. lia.
   - destruct (npop s =? k); inversion H; subst s'; clear H; eapply sinv_upd; eauto.
-  - destruct (take s k) as [s1 l] eqn:T. destruct (take_same _ _ _ _ T). inversion H; subst s'; clear H.
+  - destruct (take s k) as [s1 l] eqn:T. destruct (take_same _ _ _ _ T) as (? & ? & ?). inversion H; subst s'; clear H.
     eapply sinv_upd; eauto. rewrite nnew_finish. cbn. lia.
 Qed.
 
@@ -972,8 +1128,15 @@ Proof.
   - intros t th H. cbn [init threads] in H. rewrite nth_error_map in H. destruct (nth_error progs t) as [p|] eqn:E; inversion H; subst.
     cbn. split; auto. unfold strict_progs in SP. rewrite forallb_forall in SP. apply SP. eapply nth_error_In; eauto.
   - unfold news. cbn [init threads fresh]. induction progs; cbn; auto. apply IHprogs. cbn in SP. apply andb_prop in SP. tauto.
+  - reflexivity.
 Qed.
 
+Lemma pa_sinv : forall qc pc progs s, strict_progs progs = true -> Reach qc pc progs s -> SInv s.
+Proof.
+  intros qc pc progs s SP R. eapply (inv_reachable st step SInv); eauto.
+  - apply sinv_init; auto.
+  - intros. eapply sinv_step; eauto.
+Qed.
 Theorem pa_strict_never_creates : forall qc pc progs s, strict_progs progs = true -> Reach qc pc progs s -> fresh s = news s.
 Proof.
   intros qc pc progs s SP R. apply s_news. eapply (inv_reachable st step SInv); eauto.
@@ -982,7 +1145,7 @@ Proof.
 Qed.
 
 (* objects outstanding (held by callers) never exceed the objects injected by the clients *)
-Theorem pa_strict_bound : forall qc pc progs s, 1 <= qc -> strict_progs progs = true -> Reach qc pc progs s ->
+Theorem pa_strict_bound : forall qc pc progs s, pow2 qc -> strict_progs progs = true -> Reach qc pc progs s ->
   length (all_held s) + length (tape_pages (tape s)) <= news s.
 Proof.
   intros qc pc progs s Hq SP R. rewrite <- (pa_strict_never_creates _ _ _ _ SP R).
@@ -1047,8 +1210,6 @@ Proof.
 Qed.
 Lemma length_set_nth : forall A (l : list A) t x, length (set_nth t x l) = length l.
 Proof. induction l; intros [|t] x; cbn; auto. Qed.
-Lemma skipn_nth_cons : forall (l : list nat) n d, n < length l -> skipn n l = nth n l d :: skipn (S n) l.
-Proof. induction l; intros [|n] d H; cbn in *; try lia; auto. apply IHl. lia. Qed.
 
 (* the slots: sized to the batch, offset inside the buffer; nothing has been read outside a buffer *)
 Definition slots_ok (s : bst) : Prop :=
@@ -1313,4 +1474,123 @@ Proof.
   intros ops b n Hb W Hok s. apply pb_dtor_returns_buffers.
   - apply (proj1 (pb_inv ops b n Hb Hok)).
   - unfold s. rewrite brun_batch. exact W.
+Qed.
+
+(* ------------------------------------------------------------------ cached <= capacity in EVERY reachable state *)
+Fixpoint full_idx (tp : list cell) (base : nat) : list nat :=
+  match tp with
+  | [] => []
+  | c :: r => (if is_full c then [base] else []) ++ full_idx r (S base)
+  end.
+Lemma full_idx_len : forall tp base, length (tape_pages tp) = length (full_idx tp base).
+Proof.
+  unfold tape_pages. induction tp as [|c tp IH]; intros base; cbn; auto. rewrite !app_length, (IH (S base)).
+  destruct c; reflexivity.
+Qed.
+Lemma full_idx_in : forall tp base j, In j (full_idx tp base) -> base <= j /\ is_full (tget tp (j - base)) = true.
+Proof.
+  induction tp as [|c tp IH]; intros base j H; cbn in H; [contradiction|]. apply in_app_or in H. destruct H as [H|H].
+  - destruct c; cbn in H; try contradiction. destruct H as [<-|[]]. rewrite Nat.sub_diag. split; auto.
+  - destruct (IH _ _ H) as [A B]. split; [lia|]. replace (j - base) with (S (j - S base)) by lia. exact B.
+Qed.
+Lemma full_idx_nodup : forall tp base, NoDup (full_idx tp base).
+Proof.
+  induction tp as [|c tp IH]; intros base; cbn; [constructor|]. destruct (is_full c); cbn; auto.
+  constructor; auto. intro H. apply full_idx_in in H. lia.
+Qed.
+Lemma nodup_map_inj : forall (f : nat -> nat) l, NoDup l -> (forall x y, In x l -> In y l -> f x = f y -> x = y) -> NoDup (map f l).
+Proof.
+  induction l as [|a l IH]; intros N Inj; cbn; constructor.
+  - inversion N; subst. intro H. apply in_map_iff in H. destruct H as (y & E & Hy).
+    assert (y = a) by (apply Inj; cbn; auto). subst. contradiction.
+  - inversion N; subst. apply IH; auto. intros x y Hx Hy. apply Inj; cbn; auto.
+Qed.
+
+Lemma free_chain : forall s, Inv s -> forall m i, tget (tape s) i <> Consumed -> tget (tape s) (i + S m * qcap s) = Free.
+Proof.
+  intros s I. assert (ST : forall i, tget (tape s) i <> Consumed -> tget (tape s) (i + qcap s) = Free).
+  { intros i H. destruct (tget (tape s) (i + qcap s)) eqn:E; auto; exfalso; apply H; apply (i_k1 _ I); congruence. }
+  induction m; intros i H.
+  - replace (i + 1 * qcap s) with (i + qcap s) by lia. auto.
+  - replace (i + S (S m) * qcap s) with (i + S m * qcap s + qcap s) by lia. apply ST. rewrite IHm; auto. discriminate.
+Qed.
+
+Theorem pa_cache_bounded : forall s, Inv s -> length (tape_pages (tape s)) <= qcap s.
+Proof.
+  intros s I. destruct (pow2_pos _ (i_q _ I)) as [Q _]. rewrite (full_idx_len _ 0).
+  set (l := full_idx (tape s) 0).
+  assert (F : forall j, In j l -> is_full (tget (tape s) j) = true).
+  { intros j H. apply full_idx_in in H. rewrite Nat.sub_0_r in H. tauto. }
+  assert (INJ : forall x y, In x l -> In y l -> x mod qcap s = y mod qcap s -> x = y).
+  { assert (W : forall x y, In x l -> In y l -> x mod qcap s = y mod qcap s -> x < y -> False).
+    { intros x y Hx Hy E L.
+      pose proof (Nat.div_mod x (qcap s) ltac:(lia)) as Dx. pose proof (Nat.div_mod y (qcap s) ltac:(lia)) as Dy.
+      assert (D : x / qcap s < y / qcap s).
+      { destruct (Nat.lt_ge_cases (x / qcap s) (y / qcap s)); auto. exfalso.
+        assert (qcap s * (y / qcap s) <= qcap s * (x / qcap s)) by (apply Nat.mul_le_mono_l; lia). lia. }
+      assert (Y : y = x + S (y / qcap s - x / qcap s - 1) * qcap s).
+      { replace (S (y / qcap s - x / qcap s - 1)) with (y / qcap s - x / qcap s) by lia.
+        rewrite Nat.mul_sub_distr_r. rewrite (Nat.mul_comm (y / qcap s)), (Nat.mul_comm (x / qcap s)). rewrite E in Dx.
+        assert (qcap s * (x / qcap s) <= qcap s * (y / qcap s)) by (apply Nat.mul_le_mono_l; lia). lia. }
+      pose proof (F x Hx) as Fx. pose proof (F y Hy) as Fy.
+      assert (NC : tget (tape s) x <> Consumed) by (destruct (tget (tape s) x); try discriminate).
+      pose proof (free_chain s I (y / qcap s - x / qcap s - 1) x NC) as FR. rewrite <- Y in FR. rewrite FR in Fy. discriminate. }
+    intros x y Hx Hy E. destruct (Nat.lt_trichotomy x y) as [L|[L|L]]; auto; exfalso; [eapply (W x y) | eapply (W y x)]; eauto. }
+  pose proof (nodup_map_inj (fun j => j mod qcap s) l (full_idx_nodup _ _) INJ) as ND.
+  assert (INC : incl (map (fun j => j mod qcap s) l) (seq 0 (qcap s))).
+  { intros z Hz. apply in_map_iff in Hz. destruct Hz as (j & <- & _). apply in_seq. split; [lia|]. cbn. apply Nat.mod_upper_bound. lia. }
+  pose proof (NoDup_incl_length ND INC) as L. rewrite map_length, seq_length in L. exact L.
+Qed.
+
+(* ------------------------------------------------------------------ strict pool: no deadlock while objects are in the pool *)
+Lemma no_inflight : forall s, (forall t th, nth_error (threads s) t = Some th -> push_phase (tpc th) = false /\ buf th = []) ->
+  all_inflight s = [].
+Proof.
+  intros s. unfold all_inflight. induction (threads s) as [|th l IH]; intros H; cbn; auto.
+  destruct (H 0 th eq_refl) as [A B]. rewrite (inflight_plain th A), B. cbn. apply IH. intros t th' E. apply (H (S t) th' E).
+Qed.
+
+(* a reachable state of a strict pool in which no thread can move although some thread has not finished (and no push
+   is stuck on a full ring - excluded by the usage rule capacity >= injected objects) has every injected object
+   outstanding: as long as fewer objects are held than were injected, somebody can move *)
+Theorem pa_strict_no_deadlock : forall qc pc progs s, pow2 qc -> strict_progs progs = true -> Reach qc pc progs s ->
+  (forall t, step s t = None) ->
+  (forall t th i, nth_error (threads s) t = Some th -> tpc th = SWait true i -> push_ready (qcap s) (tape s) i = true) ->
+  (exists t th, nth_error (threads s) t = Some th /\ thread_done th = false) ->
+  length (all_held s) = news s /\ tape_pages (tape s) = [].
+Proof.
+  intros qc pc progs s Hq SP R Stuck NoFull (t0 & th0 & H0 & U0).
+  pose proof (pa_inv _ _ _ _ Hq R) as I. pose proof (pa_sinv _ _ _ _ SP R) as S.
+  assert (CL : forall t th, nth_error (threads s) t = Some th ->
+               (tpc th = Idle /\ cur_op th = None) \/ exists i, tpc th = SWait false i /\ pop_ready (tape s) i = false).
+  { intros t th H. specialize (Stuck t). unfold step in Stuck. rewrite H in Stuck. unfold step_thread in Stuck.
+    destruct (s_prog _ S _ _ H) as [_ Pc]. pose proof (i_kn _ I _ _ H) as K. unfold knows in K.
+    destruct (tpc th) eqn:P; try discriminate Pc.
+    - left. split; auto. destruct (cur_op th) as [[]|]; try discriminate; auto; destruct (held th); discriminate.
+    - destruct r.
+      + rewrite (NoFull _ _ _ H P) in Stuck. destruct K as [p B]. rewrite B in Stuck. discriminate.
+      + right. exists i. split; auto. destruct (pop_ready (tape s) i); auto. destruct (take s i). discriminate.
+    - destruct (pop_ready (tape s) k); [|destruct (npop s =? k)]; discriminate.
+    - destruct (npop s =? k); discriminate.
+    - destruct (take s k). discriminate. }
+  assert (E : tape_pages (tape s) = []).
+  { apply (pa_blocked_pop_means_empty s I).
+    - intros t th H. destruct (CL t th H) as [[A _]|B]; auto.
+    - destruct (CL t0 th0 H0) as [[A B]|(i & A & _)]; [|eauto]. unfold thread_done in U0. rewrite A, B in U0. discriminate. }
+  split; auto.
+  assert (NI : all_inflight s = []).
+  { apply no_inflight. intros t th H. pose proof (i_kn _ I _ _ H) as K. unfold knows in K.
+    destruct (CL t th H) as [[A _]|(i & A & _)]; rewrite A in *; auto. }
+  pose proof (Permutation_length (pa_conservation s I)) as L. unfold pages_of in L.
+  rewrite E, NI, (s_ret _ S), !app_length, seq_length in L. cbn in L. rewrite <- (s_news _ S). lia.
+Qed.
+
+Lemma ex_stuck : exists s, Reach 2 1 [[OSPop]; [ONew; OSPush; OSPop; OSPop]] s /\ (forall t, step s t = None) /\
+  (exists t th, nth_error (threads s) t = Some th /\ thread_done th = false) /\ all_held s <> [].
+Proof.
+  exists (run st step (init 2 1 [[OSPop]; [ONew; OSPush; OSPop; OSPop]]) [0; 1; 1; 1; 1; 1; 0; 1; 1]).
+  split; [eexists; reflexivity|]. split; [|split].
+  - intros [|[|t]]; vm_compute; reflexivity.
+  - exists 1. eexists. vm_compute. split; reflexivity.
+  - vm_compute. discriminate.
 Qed.
